@@ -5,9 +5,10 @@ cd "$W" || exit 2
 git diff -- src > OUT/patch.diff
 echo "--- patch: $(wc -l < OUT/patch.diff) lines, files: $(git diff --stat -- src | tail -1)"
 PYTHONPATH="$W/src" timeout 600 /venv/bin/python OUT/demo.py > OUT/demo_with.log 2>&1; echo "demo WITH change: exit $?"
-git stash -q
+# (git stash is shared between worktrees: revert and re-apply through the patch file instead)
+git apply -R OUT/patch.diff
 PYTHONPATH="$W/src" timeout 600 /venv/bin/python OUT/demo.py > OUT/demo_without.log 2>&1; echo "demo WITHOUT change: exit $?"
-git stash pop -q
+git apply OUT/patch.diff
 for ID in "$@"; do
   O=$(mktemp -d /tmp/ctm_seedout_XXXXXX)
   VERIF_REPO="$W" VERIF_OUT_DIR="$O" /verif/vcheck "$ID" quick 2>&1 | grep -v "^classes:" | tail -3 | cut -c1-500
